@@ -110,11 +110,12 @@ def apply_real(sem, op):
         return ('raise', type(e).__name__)
 
 
-def explore_sliding(count, ntags, depth):
+def explore_sliding(count, ntags, depth, int_tags=False):
     """DFS over the reachable (model, real) state graph to ``depth``."""
     from s3transfer.utils import SlidingWindowSemaphore
 
-    tags = [f'tag{i}' for i in range(ntags)]
+    # the manager's tags are its integer transfer ids (1, 2, ...): the same small numbers as the tokens themselves
+    tags = list(range(1, ntags + 1)) if int_tags else [f'tag{i}' for i in range(ntags)]
     viol = []
     seen = {}
     stats = {'paths': 0, 'ops': 0, 'states': 0, 'rejections_checked': 0}
@@ -306,6 +307,8 @@ def gen_cases(tier, seed):
         for ntags in (1, 2, 3):
             d = depth if ntags < 3 else depth - 1
             cases.append({'type': 'seq', 'count': count, 'ntags': ntags, 'depth': d})
+            if ntags < 3:
+                cases.append({'type': 'seq', 'count': max(count, 2) + 1, 'ntags': ntags, 'depth': d, 'int_tags': True})
     cases.append({'type': 'tasksem', 'depth': 10 if quick else 14})
     for cls in ('sliding', 'task'):
         for count in (1, 2, 3):
@@ -336,8 +339,8 @@ def gen_cases(tier, seed):
 def run_case(case):
     t = case['type']
     if t == 'seq':
-        viol, stats, distinct = explore_sliding(case['count'], case['ntags'], case['depth'])
-        return {'verdict': 'violated' if viol else 'held', 'key': f'seq-{case["count"]}-{case["ntags"]}-{case["depth"]}',
+        viol, stats, distinct = explore_sliding(case['count'], case['ntags'], case['depth'], case.get('int_tags', False))
+        return {'verdict': 'violated' if viol else 'held', 'key': f'seq-{case["count"]}-{case["ntags"]}-{case["depth"]}-{bool(case.get("int_tags"))}',
                 'violations': viol, 'stats': dict(stats, seq_distinct_state_ops=distinct),
                 'summary': {'states': stats['states'], 'ops': stats['ops']}}
     if t == 'tasksem':
